@@ -523,6 +523,8 @@ package cbor
 //@   flag noovf
 //@   flag tags binary_log
 //@   ensures prefix(res, dst) && len(res) == len(dst) + 5 && res[len(dst)] == 0xfa
+//@   ensures [C09] ncalls(math.IsNaN) == old(ncalls(math.IsNaN)) + 1 && callarg(math.IsNaN, old(ncalls(math.IsNaN)), 0) == f64(val)
+//@   ensures [C09] !callres(math.IsNaN, old(ncalls(math.IsNaN)), 0) && ncalls(math.IsInf) == old(ncalls(math.IsInf)) + 2 && !callres(math.IsInf, old(ncalls(math.IsInf)), 0) && !callres(math.IsInf, old(ncalls(math.IsInf)) + 1, 0) ==> ncalls(math.Float32bits) == old(ncalls(math.Float32bits)) + 1 && callarg(math.Float32bits, old(ncalls(math.Float32bits)), 0) == val
 //@   ensures! emitsvalue(res, dst)
 //@   loop 1:
 //@     invariant i <= 4
@@ -533,6 +535,8 @@ package cbor
 //@   flag noovf
 //@   flag tags binary_log
 //@   ensures prefix(res, dst) && len(res) == len(dst) + 9 && res[len(dst)] == 0xfb
+//@   ensures [C09] ncalls(math.IsNaN) == old(ncalls(math.IsNaN)) + 1 && callarg(math.IsNaN, old(ncalls(math.IsNaN)), 0) == val
+//@   ensures [C09] !callres(math.IsNaN, old(ncalls(math.IsNaN)), 0) && ncalls(math.IsInf) == old(ncalls(math.IsInf)) + 2 && !callres(math.IsInf, old(ncalls(math.IsInf)), 0) && !callres(math.IsInf, old(ncalls(math.IsInf)) + 1, 0) ==> ncalls(math.Float64bits) == old(ncalls(math.Float64bits)) + 1 && callarg(math.Float64bits, old(ncalls(math.Float64bits)), 0) == val
 //@   ensures! emitsvalue(res, dst)
 //@   loop 1:
 //@     invariant 1 <= i && i <= 9 && prefix(dst, dst0) && len(dst) == len(dst0) + i && dst[len(dst0)] == 0xfb
@@ -673,7 +677,7 @@ package cbor
 // a float item: the 4 or 8 bytes after the head, big-endian, are handed to
 // math.Float32frombits / math.Float64frombits unchanged (the inverse of what
 // the encoder writes: C09)
-//@ track math.Float32frombits, math.Float64frombits
+//@ track math.Float32frombits, math.Float64frombits, math.Float32bits, math.Float64bits, math.IsNaN, math.IsInf
 //@ func decodeFloat(src) val, n
 //@   props C08
 //@   arith bv
